@@ -20,11 +20,11 @@ CHECKS = {
    "Handler methods are called directly (no kernel permission check). Authority lost in the middle of a transaction is enumerated at the granularity of the application's file operations; Store.Exit is modelled as process death (restart from the directory as it was at that instant).", "§4 C07"),
  "C08": ("exploration", "E2-deviation-scripts",
    "deviation-bounded exhaustive search over lease-service answer scripts and environment events (bound 2 quick / 3 thorough) on real stores on the fake clock, monitors evaluated every 0.5 fake seconds",
-   "For each of 30 configurations (candidate x stored cluster ID x service cluster ID x {alone, joining a primary M, primary with replica M}) every script in which the lease service deviates from the truthful answer at most twice (Acquire: held/error; AcquireExisting: error; Renew: expired / error / errors from now on; PrimaryInfo: none / error / stale; ClusterID and SetClusterID: error) or the environment issues Demote, Handoff(unknown) or Handoff(M) at 5-second marks is run for 40 fake seconds (about 1.6x10^5 scripts); monitors: primary only with a granted, un-expired lease renewed within TTL+2 s, primary context cancelled on loss, each lease destroyed exactly once unless handed off (then never), non-candidate never acquires, no primary or replication across differing cluster IDs, stored ID never changes, handoff only to a subscribed node, local commits succeed only on a primary.",
+   "For each of 30 configurations (candidate x stored cluster ID x service cluster ID x {alone, joining a primary M, primary with replica M}) every script in which the lease service deviates from the truthful answer at most twice (Acquire: held/error; AcquireExisting: error; Renew: expired / error / errors from now on; PrimaryInfo: none / error / stale; ClusterID: error / 'none stored'; SetClusterID: error) or the environment issues Demote, Handoff(unknown) or Handoff(M) at 5-second marks is run for 40 fake seconds (about 2.6x10^5 scripts; a script whose recorded call order does not recur in four runs - two nodes reaching the lease service at one fake instant - is counted, judged as run, and turns exhaustive to false); monitors: primary only with a granted, un-expired lease renewed within TTL+2 s, primary context cancelled on loss, each lease destroyed exactly once unless handed off (then never), non-candidate never acquires, no primary or replication across differing cluster IDs, stored ID never changes, handoff only to a subscribed node, local commits succeed only on a primary.",
    "Lease service is the in-memory SimLeaser; the Consul leaser against a fake Consul endpoint and the static leaser's trivial behaviour are not separately explored. Decisions of the node under test only.", "§4 C08"),
  "C09": ("model_checking", "E1-histories",
    "chain monitor at every state of every cluster search plus a dedicated explicit-state BFS over retention histories with a removed-set oracle per sweep",
-   "Dedicated BFS (depth 4 quick / 5 thorough) over commits, monotone ageing of LTX files, high-water-mark settings around the current TXID, sweeps with retention 0 / 1 ns / 10 min on primary and replica, with and without a backup client, partitions, restarts, drops, re-creation, import and a lagging replica behind a trimmed log: every sweep's removed set must exclude the newest file, contain only files older than the period, and with a backup client only files below the high-water mark; the chain monitor (contiguity, pre=post linkage, per-file CRC, end = DB.Pos(), no temporary file listed, snapshot leaves only itself) is evaluated on every node at every state.",
+   "Dedicated BFS (depth 4 quick / 5 thorough) over commits, monotone ageing of LTX files, left-over temporary files of interrupted writes in the log directory, high-water-mark settings around the current TXID, sweeps with retention 0 / 1 ns / 10 min on primary and replica, with and without a backup client, partitions, restarts, drops, re-creation, import and a lagging replica behind a trimmed log: every sweep's removed set must exclude the newest file, contain only files older than the period, and with a backup client only files below the high-water mark; the chain monitor (contiguity, pre=post linkage, per-file CRC, end = DB.Pos(), no temporary file listed, snapshot leaves only itself) is evaluated on every node at every state.",
    "Same lab as C01. Sweep racing commit/stream at lock granularity is not claimed here.", "§4 C09"),
  "C10": ("exploration", "E2-schedules",
    "stateless DFS over thread schedules of the real implementation inside a synctest bubble with iterative preemption bounding (bound 2 quick / 3 thorough); points at every non-trivial RWMutex operation, internal page write/truncate and client WAL write",
@@ -36,7 +36,7 @@ CHECKS = {
    "One lock per SQLite lock byte; partial grants of refused multi-byte requests follow LiteFS's order; WAL write guard checked as 'no owner holds WRITE exclusively'. Cooperative scheduler limits as in C10.", "§4 C11"),
  "C13": ("exploration", "E1-scenarios+E2-schedules",
    "exhaustive scenario matrix on a real 3-node cluster (real /halt, /tx, /stream handlers and FUSE lock handle) plus stateless schedule DFS with preemption bounding of holder, local writer and lock expiry",
-   "Part A: every scenario {acquire -> writer on primary refused -> two forwarded commits (primary position equals replica's at commit return, third replica converges) -> repeat acquire with same ID -> release -> primary writes, former holder refused and unpublished; expiry; expiry then commit; lost reply of POST /halt, POST /tx, DELETE /halt; POST /tx caller matrix lock state x lock ID x node ID} x both journal modes. Part B: all schedules up to 2 (thorough 3) preemptions of the application on the replica, a local writer on the primary and the lock's expiry, judged by: no local commit between grant and release, acknowledged commit already on the primary, one converged history on all three nodes, no exit, no handler panic.",
+   "Part A: every scenario {acquire -> writer on primary refused -> two forwarded commits (primary position equals replica's at commit return, third replica converges) -> repeat acquire with same ID (also two requests with one ID in flight at once, with a local writer before / between / absent) -> release -> primary writes, former holder refused and unpublished; expiry; expiry then commit; lost reply of POST /halt, POST /tx, DELETE /halt; POST /tx caller matrix lock state x lock ID x node ID} x both journal modes. Part B: all schedules up to 2 (thorough 3) preemptions of the application on the replica, a local writer on the primary and the lock's expiry, judged by: no local commit between grant and release, acknowledged commit already on the primary, one converged history on all three nodes, no exit, no handler panic.",
    "Kernel/SQLite simulated; a WAL-mode commit that fails in its final phase stops the node by design and is accepted as such. Primary change while halted is not enumerated.", "§4 C13"),
  "C12": ("model_checking", "E1-closure+fake-clock",
    "explicit-state BFS to closure over the real RWMutex (private-state key) vs POSIX one-byte model; exhaustive blocking-variant matrix on the synctest fake clock",
@@ -44,7 +44,7 @@ CHECKS = {
    "Trusted: Go runtime, testing/synctest fake clock. Data races are only covered by the auxiliary free-running -race pass.", "§4 C12"),
  "C19": ("model_checking", "E1-inputs",
    "exhaustive request matrix against the real ProxyServer handler on the fake clock with a stub application behind an in-memory dialer",
-   "Every combination of role (primary, replica with known primary, node without primary) x 7 methods x 5 path classes (plain, passthrough, always-forward, both, health) x 6 cookie relations (absent, malformed, behind, equal, ahead by one, far ahead) x delivery timing of the missing transaction (0, 1, 5, 4999 polling intervals, never) is sent through the real handler: a read with cookie t reaches the application only at position >= t (else 504 and the application saw nothing), reads whose position can be reached are served, writes on a non-primary never reach the application and get fly-replay (or 503 without a primary), the cookie issued after a proxied write names a position at or after the application's commit, passthrough requests arrive unchanged in every role.",
+   "Every combination of role (primary, replica with known primary, node without primary) x 7 methods x 5 path classes (plain, passthrough, always-forward, both, health) x 6 cookie relations (absent, malformed, behind, equal, ahead by one, far ahead) x delivery timing of the missing transaction (0, 1, 5, 4999 polling intervals, never), plus the tracked database existing at position 0 (created, nothing applied yet), is sent through the real handler: a read with cookie t reaches the application only at position >= t (else 504 and the application saw nothing), reads whose position can be reached are served, writes on a non-primary never reach the application and get fly-replay (or 503 without a primary), the cookie issued after a proxied write names a position at or after the application's commit, passthrough requests arrive unchanged in every role.",
    "Handler called directly (no listener); time-outs on the synctest fake clock; application is a stub.", "§4 C19"),
  "C01": ("model_checking", "E1-histories",
    "explicit-state BFS over event histories on a real 3-node cluster (replay-from-scratch successors, canonical state keys incl. private caches); reader-through-page-cache oracle at every state",
@@ -60,8 +60,8 @@ CHECKS = {
    "Same lab as C01; crash points inside the drop belong to C05.", "§4 C15"),
  "C05": ("fault_enumeration", "E3-crash-images",
    "crash-point enumeration: the data directory is copied before every client file operation, every mutating Store.OS call and every internal page write/truncate of a history; every image is reopened by a real Store and judged",
-   "For 16 histories (first transaction, grow, shrink with post-finalise truncate, multi-segment journal, rollback after spill, all three finalisation modes, WAL transaction on a fresh and a restarted log, SQLite checkpoints of four modes, LiteFS recovery of a hot journal / WAL, drop, import, replica applying incremental LTX in both modes, replica applying a snapshot, replica applying a tombstone) x variants x geometries every crash point's disk image must reopen, recover to the position named by the newest LTX file, which must be the position before or after the operation (after, once the client's commit had returned), with the exact reference image, passing the C04/C09 monitors, no journal or WAL left, and accept a follow-up commit.",
-   "Process-crash model only (completed syscalls persist; fsync omissions unobservable). SQLite simulated. Backup-restore and forwarded-commit histories are not enumerated here.", "§4 C05"),
+   "For 18 histories (first transaction, grow, shrink with post-finalise truncate, multi-segment journal, rollback after spill, all three finalisation modes, WAL transaction on a fresh and a restarted log, SQLite checkpoints of four modes, LiteFS recovery of a hot journal / WAL, drop, import, replica applying incremental LTX in both modes, replica applying a snapshot onto an empty and onto a populated database (lagging behind a trimmed log), primary adopting the backup service's snapshot, replica applying a tombstone) x variants x geometries every crash point's disk image must reopen, recover to the position named by the newest LTX file, which must be the position before or after the operation (after, once the client's commit had returned), with the exact reference image, passing the C04/C09 monitors, no journal or WAL left, and accept a follow-up commit.",
+   "Process-crash model only (completed syscalls persist; fsync omissions unobservable). SQLite simulated. Forwarded-commit histories are not enumerated here.", "§4 C05"),
  "C16": ("model_checking", "E1-inputs",
    "exhaustive enumeration of (image, target) pairs through the real /import and /export handlers and HTTP client on a 2-node cluster",
    "Every pair of 7 targets (absent, empty, dropped, rollback-mode, WAL with un-checkpointed frames, WAL checkpointed, left-over PERSIST journal) x target page sizes x {valid images of each page size, 1/2/3/257 pages, rollback or WAL header; 13 invalid inputs} runs export -> import -> export -> replicate -> restart. Success: export equals the imported bytes except the zeroed change counter and schema cookie, exactly one new TXID, monitors pass, the replica reads the identical image through its mount. Failure: position, logical image and log listing unchanged, no Exit, restart at the same position. Export alone always equals the reference image of the current position.",
@@ -76,8 +76,8 @@ CHECKS = {
    "Random byte strings are replaced by exhaustive families. Go runtime MemStats trusted for allocation measurement.", "§4 C18"),
  "C14": ("model_checking", "E1-histories",
    "explicit-state BFS over histories of commits, drops, sweeps, restarts, fail-overs, sync calls with and without one injected fault, and service mutations, on a real cluster running the real file and LiteFS Cloud backup clients; the service's files are decoded independently after every event",
-   "For both client implementations (litefs.FileBackupClient on a directory; lfsc.BackupClient against a local server speaking GET /pos, POST /db/tx, GET /db/snapshot with EPOSMISMATCH errors) every history up to the depth bound over {two transaction shapes, checkpoint, drop, re-create, retention sweep with aged files, primary restart, partition/heal/demote (fail-over with a forked former primary), one Store.SyncBackup call healthy or with one of six faults (upload refused, upload stored but reply lost, upload cut, position map unavailable, snapshot unavailable, snapshot cut), service rolled back by one file / one transaction ahead / forked at its newest file / wiped} from start states incl. a 257-transaction backlog is executed; the same alphabet is also run against the store's own continuous sync loop with its cached position map. After every event: the service holds one contiguous chain from TXID 1 whose every boundary position and restored image is one some primary committed; no file on the service was removed or rewritten by a node; no node (primary or replica, via HWM frames) publishes a high-water mark above the largest TXID the service held when it acknowledged; after every healthy sync the service is at the primary's position with a byte-identical restored image (the primary having adopted the service's state where it was ahead, forked or not extendable) or at least 256 transactions closer; all C01/C04/C09/C15 cluster monitors run as well.",
-   "Same lab as C01. The service's durable state is a directory of LTX files; the local LiteFS Cloud server is verif's own (it checks contiguity as the real service is documented to). A restore that was not necessary (e.g. after a transient upload error) is not judged: the property does not forbid it.", "§4 C14"),
+   "For both client implementations (litefs.FileBackupClient on a directory; lfsc.BackupClient against a local server speaking GET /pos, POST /db/tx, GET /db/snapshot with EPOSMISMATCH errors) every history up to the depth bound over {two transaction shapes, checkpoint, drop, re-create, retention sweep with aged files, primary restart, partition/heal/demote (fail-over with a forked former primary), one Store.SyncBackup call healthy or with one of six faults (upload refused, upload stored but reply lost, upload cut, position map unavailable, snapshot unavailable, snapshot cut), service rolled back by one file / one transaction ahead / forked at its newest file / wiped} from start states incl. a 257-transaction backlog is executed; the same alphabet is also run against the store's own continuous sync loop with its cached position map. After every event: the service holds one contiguous chain from TXID 1 whose every boundary position and restored image is one some primary committed; no file on the service was removed or rewritten by a node; no node (primary or replica, via HWM frames) publishes a high-water mark above the largest TXID the service held when it acknowledged; after every healthy sync the service is at the primary's position with a byte-identical restored image (the primary having adopted the service's state where it was ahead, forked or not extendable) or at least 256 transactions closer; a node never discards its database for the service's snapshot while the service's position is a point of its own log with every later file present and its view of the service must be accurate (all answers reached it, nobody touched the service); all C01/C04/C09/C15 cluster monitors run as well.",
+   "Same lab as C01. The service's durable state is a directory of LTX files; the local LiteFS Cloud server is verif's own (it checks contiguity as the real service is documented to). A restore after a lost reply or a change behind the node's back is by LiteFS's design (any position mismatch reverts to the service) and is not judged.", "§4 C14"),
  "C20": ("model_checking", "E1-inputs",
    "exhaustive request matrix sent over real loopback TCP (HTTP/1.1 and h2c) to the real API server of a primary, a replica and a node without a primary; node digest compared around every request",
    "Every endpoint (/stream, /tx, /halt, /handoff, /promote, /import, /export, /info, /events, an unknown path) x 5 methods x {missing, empty, unknown, valid, misspelt} names x six id / lockID / nodeID spellings (missing, non-numeric, overflowing, negative, zero, valid) x own / foreign / malformed / absent Litefs-Id x {empty, garbage, valid, truncated, hostile-length} bodies, on each of three roles and both protocols, plus the /halt and /tx part again while another caller holds a halt lock: each request must get an HTTP response, log no panic, not stop the node, leave GET /info answering, and - when it is malformed, not allowed in the role or names a missing database/lock - leave databases, positions, logical images, LTX directory contents, the twelve lock tables and the halt lock exactly as before (a foreign caller's halt lock is never disturbed by a request that does not name it).",
